@@ -38,7 +38,7 @@ def _fix(s):
 
 
 def run_supervised(sup, argv, cwd, prefix, rules=None, seed=None, hold_permille=0, hold_maxms=0,
-                   timeout_ms=30000, env=None, tag="t", umask=None):
+                   timeout_ms=30000, env=None, tag="t", umask=None, fd9=None, nofile=None):
     """rules: list of (action, p1, p2, sys, nth, path)"""
     tdir = os.path.join(cwd, ".sup")
     os.makedirs(tdir, exist_ok=True)
@@ -56,11 +56,18 @@ def run_supervised(sup, argv, cwd, prefix, rules=None, seed=None, hold_permille=
     e = dict(os.environ, RUST_BACKTRACE="0")
     if env:
         e.update(env)
-    pre = None
-    if umask is not None:
-        pre = lambda: os.umask(umask)
+    def pre():
+        if umask is not None:
+            os.umask(umask)
+        if fd9 is not None:
+            fd = os.open(fd9, os.O_WRONLY | os.O_CREAT | os.O_APPEND, 0o644)
+            os.dup2(fd, 9, inheritable=True)
+        if nofile is not None:
+            import resource
+            resource.setrlimit(resource.RLIMIT_NOFILE, (nofile, nofile))
     try:
-        r = subprocess.run(cmd, cwd=cwd, capture_output=True, env=e, timeout=timeout_ms / 1000.0 + 30, preexec_fn=pre)
+        r = subprocess.run(cmd, cwd=cwd, capture_output=True, env=e, timeout=timeout_ms / 1000.0 + 30, preexec_fn=pre,
+                           close_fds=(fd9 is None))
         code, so, se = r.returncode, r.stdout, r.stderr
     except subprocess.TimeoutExpired as ex:
         code, so, se = 124, ex.stdout or b"", ex.stderr or b""
